@@ -277,3 +277,84 @@ Proof.
     repeat match goal with |- context [if ?c then _ else _] => destruct c eqn:?; cbn end;
     cbn in *; bool_sat.
 Qed.
+
+Lemma lc_rel_init : forall active, lc_rel lc_mon0 (Lifecycle_init active) = true.
+Proof. intros []; reflexivity. Qed.
+
+Lemma lc_observe_fold : forall acts s s' m, lc_inv s = true -> lc_rel m s = true ->
+  Lifecycle_run s acts = Some s' ->
+  lc_rel (fold_left lc_mon_step (Lifecycle_observe s acts) m) s' = true.
+Proof.
+  induction acts as [|a acts IH]; intros s s' m Hi Hr Hrun; simpl in *.
+  - inversion Hrun; subst; exact Hr.
+  - destruct (Lifecycle_exec s a) as [s1|] eqn:E; [|discriminate].
+    rewrite fold_left_app. apply (IH s1).
+    + eapply lc_inv_step; eassumption.
+    + eapply lc_rel_step; eassumption.
+    + exact Hrun.
+Qed.
+
+(** Every run of the model produces an observation log the monitors accept: after each Close
+    that returned no goroutine, socket, listener or loop is left and State() is NotConnected; no
+    dial or publish happens between a returned Close and the next Open call; ErrAlreadyOpen is
+    returned exactly when the API results so far imply the connection is open. *)
+Theorem Lifecycle_monitor_all_runs : forall active acts s,
+  Lifecycle_run (Lifecycle_init active) acts = Some s ->
+  ok_C10 (Lifecycle_observe (Lifecycle_init active) acts) = true /\
+  ok_C11 (Lifecycle_observe (Lifecycle_init active) acts) = true.
+Proof.
+  intros active acts s Hr.
+  pose proof (lc_observe_fold acts _ _ lc_mon0 (lc_inv_init active) (lc_rel_init active) Hr) as H.
+  unfold ok_C10, ok_C11, lc_mon_run. unfold lc_rel in H.
+  repeat (apply andb_true_iff in H; destruct H as [H ?]). split; exact H.
+Qed.
+
+(** ** reopen: a closed connection opened again is a fresh one, up to counters *)
+Definition lc_open_prefix (m : lc_omode) : list Lifecycle_action := [LcOpen m; LcOpen1; LcOpen2; LcOpen3].
+
+(** every field the step function can still read is equal; what may differ are the counters
+    (reconnectGen, epoch ids, metrics) and fields that are dead until rewritten (the loop record
+    while no loop exists, the reaction's epoch id while the supervisor is idle) *)
+Definition lc_same_live (s t : Lifecycle_state) : Prop :=
+  lc_active s = lc_active t /\ lc_api s = lc_api t /\ lc_shutdown s = lc_shutdown t /\
+  lc_cancelled s = lc_cancelled t /\ lc_stopping s = lc_stopping t /\ lc_sup s = lc_sup t /\
+  lc_st s = lc_st t /\ lc_latch s = lc_latch t /\ lc_spc s = lc_spc t /\ lc_pdisc s = lc_pdisc t /\
+  lc_pt7 s = lc_pt7 t /\ lc_pups s = lc_pups t /\ lc_pclose s = lc_pclose t /\ lc_stopreq s = lc_stopreq t /\
+  lc_gnotif s = lc_gnotif t /\ lc_hascur s = lc_hascur t /\ lc_etd s = lc_etd t /\ lc_edone s = lc_edone t /\
+  lc_esock s = lc_esock t /\ lc_elis s = lc_elis t /\ lc_eup s = lc_eup t /\ lc_estop1 s = lc_estop1 t /\
+  lc_estop2 s = lc_estop2 t /\ lc_ahold s = lc_ahold t /\ lc_gsender s = lc_gsender t /\ lc_grecv s = lc_grecv t /\
+  lc_gproc s = lc_gproc t /\ lc_gaccept s = lc_gaccept t /\ lc_glt s = lc_glt t /\ lc_gt7 s = lc_gt7 t /\
+  lc_gjoin s = lc_gjoin t /\ lc_hasloop s = lc_hasloop t /\ lc_tailc s = lc_tailc t /\ lc_tailn s = lc_tailn t /\
+  lc_err s = lc_err t /\ (lc_oeid s =? lc_eid s) = (lc_oeid t =? lc_eid t) /\
+  lc_hasloop s = false /\ lc_spc s = LcSupIdle.
+
+Theorem Lifecycle_reopen : forall s m, lc_inv s = true -> lc_closed s ->
+  exists s1 s0,
+    Lifecycle_run s (lc_open_prefix m) = Some s1 /\
+    Lifecycle_run (Lifecycle_init (lc_active s)) (lc_open_prefix m) = Some s0 /\
+    lc_same_live s1 s0 /\ lc_api s1 = LcOStart m LcSP0 /\
+    Lifecycle_goroutines s1 = 3 /\ Lifecycle_sockets s1 = 0.
+Proof.
+  intros s m Hi Hc.
+  destruct (Lifecycle_close_clean_state s Hi Hc) as (G & K & L & N & St & D).
+  destruct Hc as [Ha Hs].
+  lc_destruct_state s. cbn in Ha, Hs, L, N, St, D. subst api shutdown edone.
+  unfold lc_no_loops in L; cbn in L.
+  apply andb_true_iff in L; destruct L as [L L3]. apply andb_true_iff in L; destruct L as [L1 L2].
+  apply negb_true_iff in L1. apply Nat.eqb_eq in L2, L3. subst hasloop tailc tailn.
+  lc_open_inv Hi. lc_enum_facts.
+  lc_have (negb esock). lc_have (negb elis). lc_have (negb ahold). lc_have (negb gsender). lc_have (negb grecv).
+  lc_have (negb gproc). lc_have (negb gaccept). lc_have (glt =? 0). lc_have (gt7 =? 0). lc_have (negb gjoin).
+  lc_have (negb gnotif). lc_have (negb err). lc_have hascur.
+  repeat match goal with
+         | H : negb _ = true |- _ => apply negb_true_iff in H
+         | H : (_ =? 0) = true |- _ => apply Nat.eqb_eq in H
+         end.
+  subst.
+  destruct sup; try discriminate St.
+  eexists. eexists. split; [|split].
+  - unfold lc_open_prefix, Lifecycle_run, Lifecycle_exec. cbn. reflexivity.
+  - unfold lc_open_prefix, Lifecycle_run, Lifecycle_exec. cbn. reflexivity.
+  - cbn. unfold lc_same_live. cbn. rewrite !Nat.eqb_refl.
+    destruct active; repeat split; reflexivity.
+Qed.
